@@ -226,3 +226,5 @@ func runERRFMT(e *Env) (*Summary, error) {
 	}
 	return col.Finish(start), nil
 }
+
+func init() { groups["ERRFMT"] = runERRFMT }
